@@ -23,6 +23,11 @@ const c01Prelude = "v_neg = -3; v_zero = 0; v_one = 1; v_pos = 7; v_big = 109951
 	"v_null = null; v_emptyarr = []; v_arr = [3,1,2]; v_nested = [[1],'x',{'k':2}]; v_emptydict = {}; v_dict = {'a':1,'b':[2]}; func v_func(x) { x }; v_native = abs; " +
 	"&v_computed = 1+1; &v_badcomputed = 1/0; x7 = 5"
 
+// cyclic values; each statement is run on its own so that one failing does not take the others with it
+var c01CyclicPrelude = []string{"v_cycarr = [1]; v_cycarr.push(v_cycarr)", "v_cycarr2 = [1]; v_cycarr2.push(v_cycarr2)",
+	"v_cycdict = {'a':1}; v_cycdict.k = v_cycdict", "v_cycdict2 = {'a':1}; v_cycdict2.k = v_cycdict2",
+	"v_protocyc = {'a':1}; v_protocyc.__proto__ = v_protocyc", "v_pl0 = {'b':2}; v_protoloop = {'a':1}; v_pl0.__proto__ = v_protoloop; v_protoloop.__proto__ = v_pl0"}
+
 type c01Cfg struct {
 	Fam     int    `json:"fam"` // bit set: coc wod fate dc
 	NoStmts bool   `json:"noStmts"`
@@ -249,7 +254,7 @@ func init() {
 		var srcs []string
 		if *kind == "plan" {
 			idx := 0
-			for _, f := range []string{"p1.ndjson", "p2.ndjson", "p3.ndjson"} {
+			for _, f := range []string{"p1.ndjson", "p2.ndjson", "p3.ndjson", "p4.ndjson"} {
 				readND(*dir+"/"+f, func(line []byte) {
 					var p c01Plan
 					if json.Unmarshal(line, &p) != nil {
@@ -335,6 +340,9 @@ func init() {
 					defer func() { recover() }()
 					vm.Config.EnableDiceWoD, vm.Config.EnableDiceCoC, vm.Config.EnableDiceFate, vm.Config.EnableDiceDoubleCross = false, false, false, false
 					_ = vm.Run(c01Prelude)
+					for _, p := range c01CyclicPrelude {
+						_ = vm.Run(p)
+					}
 				}()
 				cfg.apply(vm)
 			}
